@@ -11,6 +11,9 @@ import (
 	"time"
 )
 
+// FairnessBound bounds how long one goroutine can be chosen in a row while others are runnable.
+const FairnessBound = 128
+
 // Scheduling strategies (record mode only; a replay reads the recorded choices).
 const (
 	StratUniform = iota
@@ -59,6 +62,7 @@ type G struct {
 	on      string // what it is blocked on
 	wakeAt  int64
 	prio    int64
+	lastRun int
 	started bool
 }
 
@@ -103,6 +107,8 @@ type Sim struct {
 	rootDone bool
 
 	steps        int
+	lastG        *G
+	sameRun      int
 	Switches     int
 	ChoicePoints int
 	MaxRunnable  int
@@ -291,6 +297,7 @@ func (s *Sim) ObjID(o any) int {
 }
 
 func (s *Sim) note(g *G, kind, detail string) {
+	g.lastRun = s.steps
 	h := s.traceHash
 	h ^= uint64(g.ID) + 1
 	h *= 0x100000001b3
@@ -487,6 +494,32 @@ func (s *Sim) pick(self *G, withSelf bool) *G {
 		}
 		if len(cands) == 1 {
 			return cands[0]
+		}
+		// Fairness: a goroutine that has been chosen FairnessBound times in a row while
+		// others were runnable must let the next one run. This is a deterministic function
+		// of the history (no draw), and keeps spin-waits from starving the goroutine they
+		// wait for under any tape, including an exhausted one.
+		if withSelf {
+			if s.lastG == self {
+				s.sameRun++
+			} else {
+				s.lastG, s.sameRun = self, 0
+			}
+			if s.sameRun >= FairnessBound {
+				s.sameRun = 0
+				s.Probes["fairness_forced_switch"]++
+				// the runnable goroutine that has waited longest gets the turn
+				best := cands[1]
+				for _, g := range cands[1:] {
+					if g.lastRun < best.lastRun {
+						best = g
+					}
+				}
+				if self.prio != 0 {
+					self.prio = 1 // PCT: a spinning goroutine drops below everyone
+				}
+				return best
+			}
 		}
 		s.ChoicePoints++
 		i := s.Cfg.Sched.Draw(len(cands), func(r *rand.Rand) int { return s.strategyPick(r, cands, self, withSelf) })
